@@ -185,7 +185,7 @@ def plan(tier):
 
 
 def shards(tier):
-    out = [dict(s, kind='doc') for s in layers.shards(plan(tier), ('neigh', 'args', 'char', 'nest10', 'sibs'))]
+    out = [dict(s, kind='doc') for s in layers.shards(plan(tier), ('neigh', 'args', 'char', 'nest10', 'sibs', 'long', 'samples'))]
     n = 10 if tier == 'quick' else 14
     for pre in itertools.product('a\n', repeat=4):
         out.append({'kind': 'lines', 'n': n, 'prefix': ''.join(pre)})
@@ -232,7 +232,7 @@ SIGNATURES = {}
 
 def coverage(tier, total):
     return {
-        'rule': 'every node, group and text token of every L_wf document of (%s), of the neighbour, argument and character layers, the sibling layer and the nest layer to depth 10; '
+        'rule': 'every node, group and text token of every L_wf document of (%s), of the neighbour, argument and character layers, the sibling layer, six long documents, the samples and the nest layer to depth 10; '
                 'char_pos_to_line at every offset of those documents and of all strings over {letter, LF} of length <= %d; '
                 'search_regex for %d patterns on every document; indexing, slicing (positive and negative), stripping, '
                 'iteration and concatenation of every text token of <= 8 characters' % (
